@@ -63,7 +63,7 @@ func TestMain(m *testing.M) {
 		evid.Spec{Name: "TestPropManyClasses", Kind: "rapid", Quick: 64, Thorough: 1600, QuickShards: 8, ThoroughShards: 16},
 	)
 	evid.Commands("obiuniq", "obidemerge")
-	evid.Note("rule", "a case = a multiset of records over a pool of 1..6 sequences (some one substitution apart; classes of 1..20+ members), count attribute absent / 1 / 2..60, 0-4 attributes each in the role category (-c, at most 2), merge (-m, at most 2), both, or plain annotation, each value present / absent / (merge attributes) already merged with a merged_<k> map whose weights sum to the count (4 in-memory representations), values string / int / integral float64 (|x| <= 2^53, negative and >= 1e6 included) / bool with pairwise different textual forms incl. the NA string and the empty string; NA value; --no-singleton; 1..3 runs each with its own input permutation, batch partition (empty batches included), batch arrival order, 1..3 producers, chunk count 1..8, memory / disk, 1..8 workers, dispatcher batch size, push jitter, GOMAXPROCS. Oracle (independent): group by (sequence, category values with NA) -> count = sum of counts, merged_<k> = sum of weights per value (weights of an already merged record = its map); the output is compared as a set key -> (count, merged maps): every output key exists, no key twice, no key missing, ids belong to the class, annotations shared by all members survive, sum of counts conserved minus exactly the classes of total count 1 under --no-singleton; every run of a case is compared with the same oracle set (hence equal across permutations / chunk counts / modes / workers). Round trip: uniq -m k -> real demerge worker (exactly one record per value with that count) -> uniq -m k gives the set of the first uniq. Large tier: the same blown up to several hundred records over up to 31 sequences. Command tier: the same data as FASTA files through the real obiuniq (--max-cpu, --batch-size, --chunk-count, --in-memory or on disk, --na-value, --no-singleton, -m, -c) and obiuniq | obidemerge | obiuniq through pipes; stderr is ignored. Non-trivial = some class has >= 2 members contributing different values to a requested merge attribute and, in some run, a hash chunk (CRC32 of the sequence modulo the chunk count) holds >= 2 distinct sequences. Distinct = hash of the whole case. "+envRule)
+	evid.Note("rule", "a case = a multiset of records over a pool of 1..6 sequences (some one substitution apart; classes of 1..20+ members), count attribute absent / 1 / 2..60, 0-4 attributes each in the role category (-c, at most 2), merge (-m, at most 2), both, or plain annotation, each value present / absent / (merge attributes) already merged with a merged_<k> map whose weights sum to the count (4 in-memory representations), values string / int / integral float64 (|x| <= 2^53, negative and >= 1e6 included) / bool with pairwise different textual forms incl. the NA string and the empty string; NA value; --no-singleton; 1..3 runs each with its own input permutation, batch partition (empty batches included), batch arrival order, 1..3 producers, chunk count 1..8, memory / disk, 1..8 workers, dispatcher batch size, push jitter, GOMAXPROCS. Oracle (independent): group by (sequence, category values with NA) -> count = sum of counts, merged_<k> = sum of weights per value (weights of an already merged record = its map); the output is compared as a set key -> (count, merged maps): every output key exists, no key twice, no key missing, ids belong to the class, annotations shared by all members survive, sum of counts conserved minus exactly the classes of total count 1 under --no-singleton; every run of a case is compared with the same oracle set (hence equal across permutations / chunk counts / modes / workers). Round trip: uniq -m k -> real demerge worker (exactly one record per value with that count) -> uniq -m k gives the set of the first uniq. Large tier: the same blown up to several hundred records over up to 31 sequences. Command tier: the same data as FASTA files through the real obiuniq (--max-cpu, --batch-size, --chunk-count, --in-memory or on disk, --na-value, --no-singleton, -m, -c) and obiuniq | obidemerge | obiuniq through pipes; stderr is ignored. Non-trivial = some class has >= 2 members contributing different values to a requested merge attribute and, in some run, a hash chunk (CRC32 of the sequence modulo the chunk count) holds >= 2 distinct sequences. Distinct = hash of the whole case. "+envRule+dirtyRule)
 	evid.Note("assumptions", "inputs are a pure function of the seed; goroutine interleavings are not (perturbed with push jitter and GOMAXPROCS).")
 	evid.Main(m, "C06")
 }
